@@ -122,8 +122,9 @@ CLAIMED = {
              "datagram terminates), C03_run_reading_total (the reading phase of the whole run -- TCP, UDP/QUIC, anything else, key-log blocks -- never fails without -c; one named "
              "hypothesis: HKDF-Expand does not refuse 12/16/32-byte outputs), C03_quic_isolation (a datagram of another flow leaves a flow's QUIC sessions unchanged); truncation "
              "gives a prefix by C08_tls / C08_quic; TLS decrypt phase: C03_tls_replay_total (replaying a session's packets -- reassembly, record framing, hello parsing, key "
-             "derivation, decryptor construction, decryption -- never raises, whatever the bytes), C03_tls_record_total. Closed under the global context. NOT proved: that "
-             "builder and writer never raise (they do at 2^32 plaintext bytes per direction) and the prefix "
+             "derivation, decryptor construction, decryption -- never raises, whatever the bytes), C03_tls_record_total; output phase: C03_records_have_carriers, C03_entries_keep_record, "
+             "C03_builder_total, C03_session_output_builds (OutputBuilder.build never raises on what a session exports). Closed under the global context. NOT proved: that "
+             "scapy's serialisation and the writer never raise (they do at 2^32 plaintext bytes per direction) and the prefix "
              "claim for a packet lost in the middle: decided by the fault enumeration (thirteen fault kinds, crafted Initial datagrams and mismatched hellos included, on TLS and QUIC victims among "
              "healthy bystanders) with byte-exact correspondence of the model including crash outcomes. One open finding (QUIC loss: subsequence, not prefix).",
         note="Trusted: Coq kernel; models tied by byte-exact correspondence on faulty captures; faults hit payloads and key logs, not the container or L2-L4 headers.",
